@@ -308,6 +308,12 @@ def run(rep):
     if wrongly or len(cans) not in a:
         raise tlc.MachineryError(f"canary failure: accepted {wrongly}; control accepted={len(cans) in a}")
     rep.extra["canaries_rejected"] = [c[0] for c in cans]
+    # a render must leave nothing behind that changes a later render of the same (meanwhile extended) Survey object: SurveyObject.tla histories
+    # with references, repeats attached between renders and a re-parented group, judged by the clauses of PROP=C03 (a stale memo keyed on the
+    # survey object shows as a reference of the earlier tree)
+    from harness.props import c02
+
+    c02.part_histories(rep, "C03")
 
 
 def replay(rep, case):
